@@ -349,6 +349,37 @@ pub fn apply(disk: &mut Disk, s: &Surgery) -> Result<(), String> {
             disk.tables.remove(&tag_from_str("GPOS"));
             Ok(())
         }
+        Surgery::CompactHmtx { num_h_metrics } => {
+            let n = usize::from(num_glyphs(disk)?);
+            let hhea = disk.tables.get(&tag_from_str("hhea")).ok_or("surgery: no hhea")?.clone();
+            let hmtx = disk.tables.get(&tag_from_str("hmtx")).ok_or("surgery: no hmtx")?.clone();
+            let old_nhm = usize::from(be16(&hhea, 34).ok_or("surgery: short hhea")?);
+            if old_nhm == 0 || old_nhm > n || hmtx.len() < 4 * old_nhm + 2 * (n - old_nhm) {
+                return Err("surgery: hmtx not well-formed".into());
+            }
+            let nhm = usize::from(*num_h_metrics).clamp(1, n);
+            let lsb = |g: usize| -> [u8; 2] {
+                let o = if g < old_nhm { 4 * g + 2 } else { 4 * old_nhm + 2 * (g - old_nhm) };
+                [hmtx[o], hmtx[o + 1]]
+            };
+            let adv = |g: usize| -> [u8; 2] {
+                let g = g.min(old_nhm - 1);
+                [hmtx[4 * g], hmtx[4 * g + 1]]
+            };
+            let mut new = Vec::with_capacity(4 * nhm + 2 * (n - nhm));
+            for g in 0..nhm {
+                new.extend_from_slice(&adv(g));
+                new.extend_from_slice(&lsb(g));
+            }
+            for g in nhm..n {
+                new.extend_from_slice(&lsb(g));
+            }
+            let mut hhea2 = (*hhea).clone();
+            hhea2[34..36].copy_from_slice(&(nhm as u16).to_be_bytes());
+            disk.tables.insert(tag_from_str("hmtx"), Rc::new(new));
+            disk.tables.insert(tag_from_str("hhea"), Rc::new(hhea2));
+            Ok(())
+        }
         Surgery::InstallVertical { num_v_metrics } => {
             let n = num_glyphs(disk)?;
             let hhea = disk
